@@ -2,6 +2,8 @@ package props
 
 import (
 	"fmt"
+	"os"
+	"strconv"
 	"strings"
 	"time"
 
@@ -211,10 +213,29 @@ func staticInvariants(s *gtfs.Static, f *gen.Feed) (sig, detail string, kinds in
 	return "", "", len(kindSeen), refs
 }
 
+// c03GiantOdds: one thorough run in this many has the giant stops table (VERIF_C03_GIANT_ODDS overrides it for
+// sensitivity experiments; part of the batch configuration like the seed).
+var c03GiantOdds = func() int {
+	if n, err := strconv.Atoi(os.Getenv("VERIF_C03_GIANT_ODDS")); err == nil && n > 0 {
+		return n
+	}
+	return 20000
+}()
+
 func runC03(t *sim.T, tier string) *sim.Violation {
 	cfg := gen.DrawStaticCfg(t, true)
+	// thorough tier, rarely: more than 2^16 stops (algorithms that switch strategy for large feeds)
+	giant := tier == "thorough" && t.Chance(1, c03GiantOdds)
+	if giant {
+		cfg.Stops = 66000 + t.Choose(8000)
+		cfg.Quoting = false
+		t.Probe("giant-stops-table")
+	}
 	m := gen.GenStatic(t, cfg)
 	nf := t.Weighted(2, 4, 3, 2, 1)
+	if giant {
+		nf = t.Range(4, 8)
+	}
 	injected := false
 	var descs []string
 	for i := 0; i < nf; i++ {
